@@ -183,11 +183,10 @@ func (ex *Exec) inlineCall(fr *Frame, fn *ssa.Function, free []Val, args []Val, 
 	}
 	merged := ex.merge(states, conds)
 	*st = *merged
-	// the callee's panicking paths do not continue here
-	if len(sub.panics) > 0 {
-		nr := Or(conds...)
-		fr.newReach = &nr
-	}
+	// execution continues here only along the callee's returning paths (its panicking paths do not continue, and
+	// a return after a loop carries the loop's exit condition)
+	nr := Or(conds...)
+	fr.newReach = &nr
 	if len(vals) == 1 {
 		return vals[0]
 	}
@@ -219,6 +218,14 @@ func (ex *Exec) invoke(fr *Frame, c *ssa.CallCommon, recv Val, args []Val, st *S
 	}
 	key := c.Method.FullName()
 	ct := ex.prog.Contracts.Funcs[key]
+	// a contract stated for the static interface type of the receiver takes precedence over the one of the
+	// interface that declares the method (seq.Sequence rows are mutable, plain feat.Range features are not)
+	if n, ok := c.Value.Type().(*types.Named); ok && n.Obj().Pkg() != nil {
+		k2 := "(" + n.Obj().Pkg().Path() + "." + n.Obj().Name() + ")." + c.Method.Name()
+		if c2 := ex.prog.Contracts.Funcs[k2]; c2 != nil {
+			key, ct = k2, c2
+		}
+	}
 	if ct == nil {
 		panic(unsupported("interface method call %s without an interface contract", key))
 	}
@@ -624,6 +631,13 @@ func (ex *Exec) evalDesignator(text string, env *SpecEnv) []designator {
 			ex.specFail("assigns %s: not a pointer", text)
 		}
 		return ex.ptrDesignators(p)
+	}
+	if strings.HasSuffix(text, "(*)") {
+		// a ghost field of every object: ghostname(*)
+		if gf, ok := ex.prog.Contracts.Ghosts[strings.TrimSuffix(text, "(*)")]; ok {
+			return []designator{{heap: "G|" + gf.Name, all: true}}
+		}
+		ex.specFail("assigns %s: unknown ghost field", text)
 	}
 	// x.f
 	e, err := ParseExpr(text)
